@@ -202,6 +202,12 @@ func grpcHistory(h *H, prop string, steps int, malformed bool) {
 				id := []string{"p", "g", "gp"}[s-5]
 				ts := tsOf()
 				es := []*trustvectorpb.Entry{{Trustee: strconv.Itoa(g.intn(3)), Value: float64(g.intn(4) + 1)}}
+				if id == "g" && g.intn(2) == 0 {
+					// a stored global trust much LARGER than local trust and pre-trust (a stale result of a bigger
+					// network): everything is aligned to it, and the default epsilon is 1e-6 / that dimension
+					es = append(es, &trustvectorpb.Entry{Trustee: strconv.Itoa(12 + g.intn(10)), Value: float64(g.intn(4) + 1)})
+					g.count("scenario:global-trust-larger-than-inputs")
+				}
 				_, err := env.tv.Update(ctx, &trustvectorpb.UpdateRequest{Header: &trustvectorpb.Header{Id: &id, TimestampQwords: ts}, Entries: es})
 				w.Str("vupdate").Str(id).qwords(ts).Int(len(es))
 				for _, e := range es {
